@@ -786,8 +786,6 @@ def count_term(ex, mask_term, n):
         # defining step, triggered only when both counts are already present (no new terms: no matching loop)
         ax.append(z3.ForAll([a, b], z3.Implies(z3.And(a >= 0, b == a + 1), C(b) == C(a) + z3.If(z3.Select(M, a), 1, 0)),
                             patterns=[z3.MultiPattern(C(a), C(b))]))
-        ax.append(z3.ForAll([a, b], z3.Implies(a <= b, z3.And(C(a) <= C(b), C(b) - C(a) <= z3.If(b < 0, 0, b) - z3.If(a < 0, 0, a))),
-                            patterns=[z3.MultiPattern(C(a), C(b))]))
         ax.append(z3.ForAll([k], z3.And(C(k) >= 0, C(k) <= z3.If(k < 0, 0, k)), patterns=[C(k)]))
         # a counted position separates the counts strictly: C(a) < C(a + 1) <= C(b)
         ax.append(z3.ForAll([a, b], z3.Implies(z3.And(0 <= a, a < b, z3.Select(M, a)), C(a) < C(b)), patterns=[z3.MultiPattern(C(a), C(b))]))
